@@ -62,7 +62,38 @@ def consistent(s: State) -> bool:
 
 class PartitionSim:
     def __init__(self, ix, fn: FuncInfo, item: str, live: str, dead: str, depth: int = 2):
-        self.ix, self.fn, self.item, self.live, self.dead, self.depth = ix, fn, item, live, dead, depth
+        self.ix, self.fn, self.live, self.dead, self.depth = ix, fn, live, dead, depth
+        # the tracked item: the parameter named in the table, otherwise the local that is filed in / looked up from the two
+        # dictionaries (found by its use, not by its name - a renamed local must not blind the analysis)
+        params = {a.arg for a in fn.node.args.args + fn.node.args.kwonlyargs}
+        if item not in params:
+            from collections import Counter
+            cands: Counter = Counter()
+            dicts = (f"self.{live}", f"self.{dead}")
+            for n in ast.walk(fn.node):
+                if isinstance(n, ast.Assign) and isinstance(n.value, ast.Name):
+                    for t in n.targets:
+                        if isinstance(t, ast.Subscript) and unparse(t.value) in dicts:
+                            cands[n.value.id] += 2
+                if isinstance(n, ast.Call) and isinstance(n.func, ast.Attribute) and n.func.attr in ("pop", "get") and unparse(n.func.value) in dicts \
+                        and n.args and isinstance(n.args[0], ast.Attribute) and n.args[0].attr == "uuid" and isinstance(n.args[0].value, ast.Name):
+                    cands[n.args[0].value.id] += 1
+                if isinstance(n, ast.Call) and isinstance(n.func, ast.Attribute) and n.func.attr in ("delete", "restore") and isinstance(n.func.value, ast.Name) \
+                        and n.func.value.id not in ("self",):
+                    cands[n.func.value.id] += 1
+                if isinstance(n, ast.For) and isinstance(n.iter, ast.Call) and isinstance(n.iter.func, ast.Attribute) and unparse(n.iter.func.value) in dicts:
+                    if n.iter.func.attr == "values" and isinstance(n.target, ast.Name):
+                        cands[n.target.id] += 2
+                    if n.iter.func.attr == "items" and isinstance(n.target, ast.Tuple) and len(n.target.elts) == 2 and isinstance(n.target.elts[1], ast.Name):
+                        cands[n.target.elts[1].id] += 2
+                if isinstance(n, ast.Assign) and isinstance(n.value, ast.Call) and (call_name(n.value) or "").startswith(("get_file", "get_folder")):
+                    for t in n.targets:
+                        if isinstance(t, ast.Name):
+                            cands[t.id] += 1
+            if not cands:
+                raise AnalysisError(f"R15.1: cannot identify the item that {fn.short} moves between self.{live} and self.{dead}")
+            item = cands.most_common(1)[0][0]
+        self.item = item
         self.g = CFG(fn.node)
         self.ld = LocalDefs(fn.node)
         self.keys = {f"{item}.uuid"}
